@@ -126,6 +126,15 @@ pub struct Info {
 
 // TODO: Maybe merge Band with StoredTree and/or with the Index classes? The distinction seems
 // small.
+/// The wall clock, in whole seconds, as recorded in band heads and tails.
+fn now_second(_transport: &Transport) -> i64 {
+    #[cfg(feature = "verif_hooks")]
+    if let Some(t) = _transport.verif_now_second() {
+        return t;
+    }
+    Timestamp::now().as_second()
+}
+
 impl Band {
     /// Make a new band (and its on-disk directory).
     ///
@@ -155,7 +164,7 @@ impl Band {
             Some("23.2.0".to_owned())
         };
         let head = Head {
-            start_time: Timestamp::now().as_second(),
+            start_time: now_second(&transport),
             band_format_version,
             format_flags: format_flags.into(),
         };
@@ -173,7 +182,7 @@ impl Band {
             &self.transport,
             BAND_TAIL_FILENAME,
             &Tail {
-                end_time: Timestamp::now().as_second(),
+                end_time: now_second(&self.transport),
                 index_hunk_count: Some(index_hunk_count),
             },
         )
